@@ -185,7 +185,7 @@ func aggregate(obs []*Oblig) map[string]*Agg {
 		}
 	}
 	for _, a := range out {
-		if a.Kind != "reach" && a.Kind != "canary" {
+		if a.Kind != "reach" && a.Kind != "canary" && a.Kind != "cover" {
 			continue
 		}
 		feasible := false
@@ -194,7 +194,9 @@ func aggregate(obs []*Oblig) map[string]*Agg {
 				feasible = true
 			}
 		}
-		if !feasible {
+		if feasible {
+			a.Status = "discharged"
+		} else if a.Status != "unknown" {
 			a.Status = "infeasible"
 		}
 	}
